@@ -40,7 +40,7 @@ def cur():
 
 
 def is_sym(v):
-    return isinstance(v, (R, I, B))
+    return isinstance(v, (R, I, B, S))
 
 
 # --------------------------------------------------------------------------- lifting
@@ -450,6 +450,41 @@ class I:
         return 'I(%s)' % self.t
 
 
+class S:
+    """symbolic string (z3 String term)"""
+    __slots__ = ('t', 'lower_known')
+
+    def __init__(self, t, lower_known=None):
+        self.t = t
+        self.lower_known = lower_known
+
+    def __eq__(self, o):
+        if isinstance(o, S):
+            return B(self.t == o.t)
+        if isinstance(o, str):
+            return B(self.t == z3.StringVal(o))
+        return False
+
+    def __ne__(self, o):
+        r = self.__eq__(o)
+        return ~r if isinstance(r, B) else (not r)
+
+    def __hash__(self):
+        # used as a dict key: fork over "equals this concrete key" is done by __eq__; all symbolic strings share a bucket
+        return 0
+
+    def lower(self):
+        if self.lower_known is None:
+            raise HarnessError('lower() of an unconstrained symbolic string')
+        return self.lower_known
+
+    def __str__(self):
+        raise HarnessError('str() of symbolic string escapes to C level')
+
+    def __repr__(self):
+        return 'S(%s)' % self.t
+
+
 def trunc_to_int(x):
     """C (int) cast: truncation toward zero"""
     if isinstance(x, I):
@@ -789,6 +824,11 @@ class Explorer:
         self.names[name] = v
         return B(v)
 
+    def string(self, name):
+        v = z3.String(self._nm(name))
+        self.names[name] = v
+        return S(v)
+
     def fresh_real(self, hint='t'):
         self._fresh += 1
         return self.real('%s!%d' % (hint, self._fresh))
@@ -929,10 +969,14 @@ def _model_value(val):
         return True
     if z3.is_false(val):
         return False
+    if z3.is_string_value(val):
+        return {'str': val.as_string()}
     return str(val)
 
 
 def model_float(v):
+    if isinstance(v, dict) and 'str' in v:
+        return v['str']
     if isinstance(v, dict):
         return Fraction(int(v['num']), int(v['den']))
     return v
@@ -989,6 +1033,9 @@ class FloatCtx:
 
     def bool(self, name):
         return bool(self._val(name, False))
+
+    def string(self, name):
+        return str(self._val(name, ''))
 
     def fresh_real(self, hint='t'):
         self._fresh += 1
